@@ -235,5 +235,6 @@ int main(int argc, char** argv)
 	def.ncases = [](Ctx&) { return gCases.size(); };
 	def.run = runCase;
 	def.caseTimeoutS = 1500;
+	mc::alloc_cap = std::size_t(4) << 30;   // the explorer's own tables (seen set, parent links, bit matrices) exceed the default 64 MiB environment cap; no library allocation in this check is driven by input sizes
 	return mc::Main(argc, argv, def);
 }
